@@ -63,6 +63,10 @@ type nrCase struct {
 	Rewrap  string `json:"inner_rewrapped,omitempty"` // self-valid: the inner request additionally carries registration info re-sealed, correctly, by the requesting node itself
 	Step    int    `json:"replay_step"`               // replay-old: which chain request is replayed
 	Param   int    `json:"param"`                     // byte position / length selector of the mutation
+	// NoState: the independent records were enrolled without application state (then "carrying over that record's state" means: none)
+	NoState bool `json:"records_without_state,omitempty"`
+	// CallerState: the application's rotation call carries a state option of its own (as a listener's option list may); the record's state, even if absent, wins
+	CallerState bool `json:"rotation_call_carries_state_option,omitempty"`
 }
 
 const nrNone = -100
@@ -295,7 +299,12 @@ func (w *nrWorld) submit(step string, req *types.RotateNodeCredentialsRequest, n
 	before := w.snapshot()
 	var resp *types.RotateNodeCredentialsResponse
 	var err error
-	if p, st := engine.Guard(func() { resp, err = rotation.RotateNodeCredentials(w.s.Ctx, w.s.Store, req, w.s.Opts()...) }); p != nil {
+	callOpts := w.s.Opts()
+	if nc.CallerState {
+		callOpts = w.s.Opts(nodeenrollment.WithState(w.uniqueState("callers-own")))
+		r.Count("rotation_calls_carrying_a_state_option", 1)
+	}
+	if p, st := engine.Guard(func() { resp, err = rotation.RotateNodeCredentials(w.s.Ctx, w.s.Store, req, callOpts...) }); p != nil {
 		viol("panic:"+engine.LibraryFrame(st), fmt.Sprintf("RotateNodeCredentials panicked (%s, %s): %v", step, reason, p))
 		return false
 	}
@@ -585,6 +594,9 @@ func runNRCase(c *engine.Ctx, nc nrCase) {
 	s := w.s
 	enroll := func(tag string) *nrRec {
 		st := w.uniqueState(tag)
+		if nc.NoState && tag == "rec" {
+			st = nil
+		}
 		er, err := world.Enroll(s, world.FlowAuthorize, false, st, nil, nil)
 		if err != nil {
 			panic("enroll: " + err.Error())
@@ -1347,6 +1359,10 @@ func runNodeRot(c *engine.Ctx) engine.Result {
 	r.Sample(cases[enumerated-1])
 	r.Sample(cases[len(cases)-1])
 
+	for i := range cases {
+		cases[i].NoState = i%2 == 1
+		cases[i].CallerState = i%3 == 1
+	}
 	engine.ForEach(len(cases), engine.Workers(), func(i int) { runNRCase(c, cases[i]) })
 
 	for _, k := range []string{"current", "previous", "other-node", "unrelated", "own-record-outside-lookup", "none"} {
